@@ -2,30 +2,442 @@ package util
 
 import (
 	"bytes"
+	"io"
+	"math"
 
+	"go.minekube.com/gate/pkg/edition/java/profile"
 	zz "go.minekube.com/gate/pkg/internal/zzverif"
+	"go.minekube.com/gate/pkg/util/uuid"
 )
 
-// VarInt: every int32 value round-trips, uses 1..5 bytes, and the reader is empty afterwards.
-func VerifHarness_VarIntRoundTrip() {
+// plainReader is an io.Reader that is NOT an io.ByteReader and hands out whatever is left
+// (fewer bytes than asked for when the stream is short), like a socket at end of stream.
+type zzPlainReader struct {
+	b []byte
+}
+
+func (r *zzPlainReader) Read(p []byte) (int, error) {
+	if len(r.b) == 0 {
+		return 0, io.EOF
+	}
+	n := copy(p, r.b)
+	r.b = r.b[n:]
+	return n, nil
+}
+
+// zzWriter collects bytes without being an io.ByteWriter.
+type zzWriter struct{ b []byte }
+
+func (w *zzWriter) Write(p []byte) (int, error) {
+	w.b = append(w.b, p...)
+	return len(p), nil
+}
+
+// zzRoundTrip is the common oracle: encode, decode with both reader kinds, then every strict prefix.
+func zzRoundTrip(name string, enc func(w io.Writer) error, dec func(r io.Reader) (same bool, err error)) {
+	var buf bytes.Buffer
+	zz.Assert(enc(&buf) == nil, name+": encoder failed")
+	data := append([]byte(nil), buf.Bytes()...)
+	// the plain-writer path must produce the same bytes
+	pw := &zzWriter{}
+	zz.Assert(enc(pw) == nil, name+": encoder failed on a plain io.Writer")
+	zz.Assert(bytes.Equal(pw.b, data), name+": io.ByteWriter and io.Writer paths encode differently")
+
+	br := bytes.NewReader(data)
+	same, err := dec(br)
+	zz.Assert(err == nil, name+": decoder rejected the encoder's output")
+	zz.Assert(same, name+": round trip changed the value")
+	zz.Assert(br.Len() == 0, name+": decoder did not consume exactly the bytes written")
+
+	pr := &zzPlainReader{b: data}
+	same, err = dec(pr)
+	zz.Assert(err == nil, name+": decoder (plain reader) rejected the encoder's output")
+	zz.Assert(same, name+": round trip (plain reader) changed the value")
+	zz.Assert(len(pr.b) == 0, name+": decoder (plain reader) did not consume exactly the bytes written")
+	zz.Reach(name + "-roundtrip")
+
+	// strict prefix
+	cut := zz.Int()
+	zz.Assume(cut >= 0 && cut < len(data))
+	if zz.Bool() {
+		_, err = dec(bytes.NewReader(data[:cut]))
+		zz.Assert(err != nil, name+": a strict prefix of a valid encoding decoded without error")
+	} else {
+		_, err = dec(&zzPlainReader{b: data[:cut]})
+		zz.Assert(err != nil, name+": a strict prefix of a valid encoding decoded without error (plain reader)")
+	}
+	zz.Reach(name + "-truncated")
+}
+
+func zzMax() int {
+	if zz.Thorough() {
+		return 4
+	}
+	return 2
+}
+
+func VerifHarness_VarInt() {
 	v := zz.Int32()
 	var buf bytes.Buffer
 	n, err := WriteVarIntN(&buf, int(v))
-	zz.Assert(err == nil, "WriteVarIntN returned an error")
-	zz.Assert(n == buf.Len(), "WriteVarIntN byte count differs from bytes written")
+	zz.Assert(err == nil && n == buf.Len(), "WriteVarIntN: wrong byte count")
 	zz.Assert(n >= 1 && n <= 5, "VarInt length outside 1..5")
+	// reference LEB128 length
+	u := uint32(v)
+	want := 1
+	for u >= 0x80 {
+		want++
+		u >>= 7
+	}
+	zz.Assert(n == want, "VarInt is not minimally encoded")
 	enc := append([]byte(nil), buf.Bytes()...)
 	got, rn, err := ReadVarIntReturnN(bytes.NewReader(enc))
-	zz.Assert(err == nil, "ReadVarIntReturnN failed on encoder output")
-	zz.Assert(got == int(v), "VarInt round trip changed the value")
-	zz.Assert(rn == n, "VarInt reader consumed a different number of bytes")
-	zz.Reach("varint-roundtrip")
+	zz.Assert(err == nil && got == int(v) && rn == n, "VarInt (ByteReader) round trip")
+	got, rn, err = ReadVarIntReturnN(&zzPlainReader{b: enc})
+	zz.Assert(err == nil && got == int(v) && rn == n, "VarInt (plain reader) round trip")
+	zzRoundTrip("varint", func(w io.Writer) error { return WriteVarInt(w, int(v)) },
+		func(r io.Reader) (bool, error) { g, e := ReadVarInt(r); return g == int(v), e })
 }
 
-func VerifMutant_VarIntRoundTrip() {
+// Any 5 bytes: the reader accepts iff they form a VarInt of at most 5 bytes, never panics,
+// and both code paths agree.
+func VerifHarness_VarIntHostile() {
+	zz.MaxLen(6)
+	n := zz.Int()
+	zz.Assume(n >= 0 && n <= 6)
+	data := zz.Bytes(n)
+	g1, n1, e1 := ReadVarIntReturnN(bytes.NewReader(data))
+	g2, n2, e2 := ReadVarIntReturnN(&zzPlainReader{b: data})
+	zz.Assert((e1 == nil) == (e2 == nil), "VarInt readers disagree on acceptance")
+	if e1 == nil {
+		zz.Assert(g1 == g2 && n1 == n2, "VarInt readers disagree on the value")
+		zz.Assert(n1 >= 1 && n1 <= 5 && n1 <= len(data), "VarInt reader consumed an impossible byte count")
+		zz.Assert(data[n1-1]&0x80 == 0, "VarInt reader stopped on a continuation byte")
+		zz.Reach("varint-hostile-accept")
+	} else {
+		zz.Reach("varint-hostile-reject")
+	}
+}
+
+func VerifHarness_Fixed() {
+	switch zz.Choose(10) {
+	case 0:
+		v := zz.Bool()
+		zzRoundTrip("bool", func(w io.Writer) error { return WriteBool(w, v) },
+			func(r io.Reader) (bool, error) { g, e := ReadBool(r); return g == v, e })
+	case 1:
+		v := zz.Int8()
+		zzRoundTrip("int8", func(w io.Writer) error { return WriteInt8(w, v) },
+			func(r io.Reader) (bool, error) { g, e := ReadInt8(r); return g == v, e })
+	case 2:
+		v := zz.Int16()
+		zzRoundTrip("int16", func(w io.Writer) error { return WriteInt16(w, v) },
+			func(r io.Reader) (bool, error) { g, e := ReadInt16(r); return g == v, e })
+	case 3:
+		v := zz.Uint16()
+		zzRoundTrip("uint16", func(w io.Writer) error { return WriteUint16(w, v) },
+			func(r io.Reader) (bool, error) { g, e := ReadUint16(r); return g == v, e })
+	case 4:
+		v := zz.Int32()
+		zzRoundTrip("int32", func(w io.Writer) error { return WriteInt32(w, v) },
+			func(r io.Reader) (bool, error) { g, e := ReadInt32(r); return g == v, e })
+	case 5:
+		v := zz.Uint32()
+		zzRoundTrip("uint32", func(w io.Writer) error { return WriteUint32(w, v) },
+			func(r io.Reader) (bool, error) { g, e := ReadUint32(r); return g == v, e })
+	case 6:
+		v := zz.Int64()
+		zzRoundTrip("int64", func(w io.Writer) error { return WriteInt64(w, v) },
+			func(r io.Reader) (bool, error) { g, e := ReadInt64(r); return g == v, e })
+	case 7:
+		v := zz.Uint64()
+		zzRoundTrip("uint64", func(w io.Writer) error { return WriteUint64(w, v) },
+			func(r io.Reader) (bool, error) { g, e := ReadUint64(r); return g == v, e })
+	case 8:
+		v := zz.Float32()
+		zzRoundTrip("float32", func(w io.Writer) error { return WriteFloat32(w, v) },
+			func(r io.Reader) (bool, error) {
+				g, e := ReadFloat32(r)
+				return math.Float32bits(g) == math.Float32bits(v), e
+			})
+	case 9:
+		v := zz.Float64()
+		zzRoundTrip("float64", func(w io.Writer) error { return WriteFloat64(w, v) },
+			func(r io.Reader) (bool, error) {
+				g, e := ReadFloat64(r)
+				return math.Float64bits(g) == math.Float64bits(v), e
+			})
+	}
+}
+
+// Big-endian layout of the fixed-width writers against a reference written here.
+func VerifHarness_FixedLayout() {
+	v := zz.Uint64()
+	var buf bytes.Buffer
+	_ = WriteUint64(&buf, v)
+	_ = WriteUint32(&buf, uint32(v))
+	_ = WriteUint16(&buf, uint16(v))
+	_ = WriteInt(&buf, int(int32(v)))
+	b := buf.Bytes()
+	zz.Assert(len(b) == 18, "fixed-width writers wrote a wrong number of bytes")
+	for i := 0; i < 8; i++ {
+		zz.Assert(b[i] == byte(v>>(56-8*uint(i))), "uint64 is not big-endian")
+	}
+	for i := 0; i < 4; i++ {
+		zz.Assert(b[8+i] == byte(uint32(v)>>(24-8*uint(i))), "uint32 is not big-endian")
+		zz.Assert(b[14+i] == byte(uint32(v)>>(24-8*uint(i))), "WriteInt is not a big-endian int32")
+	}
+	zz.Assert(b[12] == byte(v>>8) && b[13] == byte(v), "uint16 is not big-endian")
+	zz.Reach("layout")
+}
+
+func VerifHarness_UUID() {
+	var id uuid.UUID
+	copy(id[:], zz.Bytes(16))
+	if zz.Bool() {
+		zzRoundTrip("uuid", func(w io.Writer) error { return WriteUUID(w, id) },
+			func(r io.Reader) (bool, error) { g, e := ReadUUID(r); return g == id, e })
+	} else {
+		zzRoundTrip("uuid-intarray", func(w io.Writer) error { return WriteUUIDIntArray(w, id) },
+			func(r io.Reader) (bool, error) { g, e := ReadUUIDIntArray(r); return g == id, e })
+	}
+}
+
+func VerifHarness_UUIDLayout() {
+	var id uuid.UUID
+	copy(id[:], zz.Bytes(16))
+	var a, b bytes.Buffer
+	_ = WriteUUID(&a, id)
+	_ = WriteUUIDIntArray(&b, id)
+	zz.Assert(bytes.Equal(a.Bytes(), id[:]), "WriteUUID is not the 16 bytes most significant first")
+	zz.Assert(bytes.Equal(b.Bytes(), id[:]), "WriteUUIDIntArray is not four big-endian ints")
+	zz.Reach("uuid-layout")
+}
+
+func VerifHarness_String() {
+	zz.MaxLen(zzMax())
+	n := zz.Int()
+	zz.Assume(n >= 0 && n <= zzMax())
+	s := zz.String(n)
+	switch zz.Choose(3) {
+	case 0:
+		zzRoundTrip("string", func(w io.Writer) error { return WriteString(w, s) },
+			func(r io.Reader) (bool, error) { g, e := ReadString(r); return g == s, e })
+	case 1:
+		zzRoundTrip("utf", func(w io.Writer) error { return WriteUTF(w, s) },
+			func(r io.Reader) (bool, error) { g, e := ReadUTF(r); return g == s, e })
+	case 2:
+		max := zz.Int()
+		zz.Assume(max >= 0 && max <= 1<<20)
+		var buf bytes.Buffer
+		_ = WriteString(&buf, s)
+		g, e := ReadStringMax(bytes.NewReader(buf.Bytes()), max)
+		if len(s) <= max*4 {
+			zz.Assert(e == nil && g == s, "ReadStringMax rejected a string within the limit")
+			zz.Reach("stringmax-accept")
+		} else {
+			zz.Assert(e != nil, "ReadStringMax accepted a string above the limit")
+			zz.Reach("stringmax-reject")
+		}
+	}
+}
+
+func VerifHarness_Bytes() {
+	zz.MaxLen(zzMax())
+	n := zz.Int()
+	zz.Assume(n >= 0 && n <= zzMax())
+	b := zz.Bytes(n)
+	switch zz.Choose(3) {
+	case 0:
+		zzRoundTrip("bytes", func(w io.Writer) error { return WriteBytes(w, b) },
+			func(r io.Reader) (bool, error) { g, e := ReadBytes(r); return bytes.Equal(g, b), e })
+	case 1:
+		ext := zz.Bool()
+		zzRoundTrip("bytes17", func(w io.Writer) error { return WriteBytes17(w, b, ext) },
+			func(r io.Reader) (bool, error) { g, e := ReadBytes17(r); return bytes.Equal(g, b), e })
+	case 2:
+		max := zz.Int()
+		zz.Assume(max >= 0 && max <= 1<<20)
+		var buf bytes.Buffer
+		_ = WriteBytes(&buf, b)
+		g, e := ReadBytesLen(bytes.NewReader(buf.Bytes()), max)
+		if len(b) <= max {
+			zz.Assert(e == nil && bytes.Equal(g, b), "ReadBytesLen rejected an array within the limit")
+			zz.Reach("byteslen-accept")
+		} else {
+			zz.Assert(e != nil, "ReadBytesLen accepted an array above the limit")
+			zz.Reach("byteslen-reject")
+		}
+	}
+}
+
+// The 1.7 "extended short": a 2-byte big-endian short whose top bit announces a third byte
+// carrying bits 15..22. Checked against a reference reader/writer of that format for every
+// length 0..2^23-1 as a symbolic number (no body needed).
+func VerifHarness_ExtendedShort() {
+	v := zz.Int()
+	zz.Assume(v >= 0 && v <= 0x7FFFFF)
+	var buf bytes.Buffer
+	zz.Assert(WriteExtendedForgeShort(&buf, v) == nil, "WriteExtendedForgeShort failed")
+	enc := append([]byte(nil), buf.Bytes()...)
+	// reference encoder
+	low := v & 0x7FFF
+	high := (v & 0x7F8000) >> 15
+	var want []byte
+	if high != 0 {
+		low |= 0x8000
+		want = []byte{byte(low >> 8), byte(low), byte(high)}
+		zz.Reach("extshort-3-bytes")
+	} else {
+		want = []byte{byte(low >> 8), byte(low)}
+		zz.Reach("extshort-2-bytes")
+	}
+	zz.Assert(bytes.Equal(enc, want), "1.7 extended short is not encoded as a 2-byte short plus optional high byte")
+	r := bytes.NewReader(want)
+	got, err := ReadExtendedForgeShort(r)
+	zz.Assert(err == nil && got == v, "1.7 extended short does not decode to the value written")
+	zz.Assert(r.Len() == 0, "1.7 extended short reader did not consume exactly the prefix")
+}
+
+func VerifHarness_StringArray() {
+	zz.MaxLen(2)
+	k := zz.Int()
+	zz.Assume(k >= 0 && k <= 2)
+	a := make([]string, k)
+	for i := range a {
+		n := zz.Int()
+		zz.Assume(n >= 0 && n <= 2)
+		a[i] = zz.String(n)
+	}
+	zzRoundTrip("strings", func(w io.Writer) error { return WriteStrings(w, a) },
+		func(r io.Reader) (bool, error) {
+			g, e := ReadStringArray(r)
+			if e != nil {
+				return false, e
+			}
+			if len(g) != len(a) {
+				return false, nil
+			}
+			for i := range g {
+				if g[i] != a[i] {
+					return false, nil
+				}
+			}
+			return true, nil
+		})
+}
+
+func VerifHarness_VarIntArray() {
+	zz.MaxLen(3)
+	k := zz.Int()
+	zz.Assume(k >= 0 && k <= 3)
+	a := make([]int, k)
+	for i := range a {
+		a[i] = int(zz.Int32())
+	}
+	eq := func(g []int) bool {
+		if len(g) != len(a) {
+			return false
+		}
+		for i := range g {
+			if g[i] != a[i] {
+				return false
+			}
+		}
+		return true
+	}
+	if zz.Bool() {
+		zzRoundTrip("varintarray", func(w io.Writer) error { return WriteVarIntArray(w, a) },
+			func(r io.Reader) (bool, error) { g, e := ReadVarIntArray(r); return e == nil && eq(g), e })
+	} else {
+		zzRoundTrip("intarray", func(w io.Writer) error { return WriteVarIntArray(w, a) },
+			func(r io.Reader) (bool, error) { g, e := ReadIntArray(r); return e == nil && eq(g), e })
+	}
+}
+
+func VerifHarness_Properties() {
+	zz.MaxLen(2)
+	k := zz.Int()
+	zz.Assume(k >= 0 && k <= 2)
+	ps := make([]profile.Property, k)
+	for i := range ps {
+		ln := func() int { n := zz.Int(); zz.Assume(n >= 0 && n <= 1); return n }
+		ps[i] = profile.Property{Name: zz.String(ln()), Value: zz.String(ln()), Signature: zz.String(ln())}
+	}
+	zzRoundTrip("properties", func(w io.Writer) error { return WriteProperties(w, ps) },
+		func(r io.Reader) (bool, error) {
+			g, e := ReadProperties(r)
+			if e != nil {
+				return false, e
+			}
+			if len(g) != len(ps) {
+				return false, nil
+			}
+			for i := range g {
+				if g[i] != ps[i] {
+					return false, nil
+				}
+			}
+			return true, nil
+		})
+}
+
+// Length prefixes outside the allowed range are rejected with an error before any allocation that
+// depends on them: the stream is just the length VarInt (full int32 range) and nothing else.
+func VerifHarness_LengthPrefix() {
+	zz.MaxLen(2)
+	l := zz.Int32()
+	var buf bytes.Buffer
+	_ = WriteVarInt(&buf, int(l))
+	data := buf.Bytes()
+	// documented caps: strings 4*DefaultMaxStringSize bytes, collections MaxPreAllocSize elements
+	// (the largest element, profile.Property, is 48 bytes)
+	zz.AllocCap(MaxPreAllocSize * 48)
+	var err error
+	which := zz.Choose(7)
+	switch which {
+	case 0:
+		_, err = ReadString(bytes.NewReader(data))
+	case 1:
+		_, err = ReadBytes(bytes.NewReader(data))
+	case 2:
+		_, err = ReadStringArray(bytes.NewReader(data))
+	case 3:
+		_, err = ReadVarIntArray(bytes.NewReader(data))
+	case 4:
+		_, err = ReadIntArray(bytes.NewReader(data))
+	case 5:
+		_, err = ReadProperties(bytes.NewReader(data))
+	case 6:
+		_, err = ReadKeyArray(bytes.NewReader(data))
+	}
+	if l != 0 {
+		zz.Assert(err != nil, "a length prefix with no body behind it was accepted")
+		zz.Reach("length-rejected")
+	} else {
+		zz.Assert(err == nil, "an empty collection was rejected")
+		zz.Reach("length-zero")
+	}
+}
+
+// ---------- negative controls ----------
+
+func VerifMutant_VarInt() {
 	v := zz.Int32()
 	var buf bytes.Buffer
 	_ = WriteVarInt(&buf, int(v))
 	got, _ := ReadVarInt(bytes.NewReader(buf.Bytes()))
-	zz.Assert(got != 300, "control: 300 must be reachable")
+	zz.Assert(got != 300, "control: the value 300 must be found")
+}
+
+func VerifMutant_Truncation() {
+	// a decoder that pads with zeros must be caught by the prefix oracle
+	v := zz.Uint32()
+	zzRoundTrip("control-padding", func(w io.Writer) error { return WriteUint32(w, v) },
+		func(r io.Reader) (bool, error) {
+			var b [4]byte
+			_, _ = r.Read(b[:])
+			g := uint32(b[0])<<24 | uint32(b[1])<<16 | uint32(b[2])<<8 | uint32(b[3])
+			return g == v, nil
+		})
 }
